@@ -123,3 +123,25 @@ def canvas_cell(canv, col: int, row: int):
     if not (0 <= col < len(s)):
         return None
     return glyph_owner(s[col])
+
+
+class ForceSelAttrMap(urwid.AttrMap):
+    """a decoration that overrides selectable(): its answer differs from its base widget's"""
+
+    def __init__(self, w, forced: bool):
+        super().__init__(w, None)
+        self._forced = bool(forced)
+
+    def selectable(self) -> bool:
+        return self._forced
+
+
+class SelWrap(urwid.WidgetWrap):
+    """a WidgetWrap (not a decoration: base_widget is itself) whose selectable() differs from the wrapped widget's"""
+
+    def __init__(self, w, forced: bool):
+        super().__init__(w)
+        self._forced = bool(forced)
+
+    def selectable(self) -> bool:
+        return self._forced
